@@ -223,7 +223,9 @@ def fanout_rule(ctx, F):
         ctx.floor("C36-f", len(good), 3, "`for sender in senders { sender.send(..) }` loops in the workflow")
         errs = set(bi for (bi, si, st) in return_aggs(b) if st["rv"]["k"] == "agg" and st["rv"].get("v") == "Err")
         errs |= set(x for x, t in b.calls() if "from_residual" in (callee_key(t) or ""))
-        wit = must_pass(b, 0, [], list(good) + list(errs), treat_exit_as_goal=True)
+        # #[async_trait] prepends `if let Some(ret) = None::<Ret> { return ret }` (a type hint, never taken)
+        dead = [tb for blk in b.blocks if blk["t"]["k"] == "switch" and "async_trait::async_trait" in (blk["t"].get("exp") or []) for (_v, tb) in blk["t"]["ts"]]
+        wit = must_pass(b, 0, [], list(good) + list(errs) + dead, treat_exit_as_goal=True)
         ctx.check("C36-f", "%s#all-senders-answered" % fkey(f), wit is None, "every Ok return iterates over all senders and sends the response",
                   "the workflow can return Ok without replying to the senders it was given: the RPCs of all merged AppendEntries hang until timeout "
                   "where sequential processing answers each", loc(b, 0), wit and bpath(b, wit))
